@@ -17,6 +17,7 @@ Fixpoint s1_expr (e : expr) : bool :=
   match e with
   | ELoad _ _ => true
   | EOp es => (fix go (l : list expr) : bool := match l with [] => true | x :: r => s1_expr x && go r end) es
+  | EAttr e _ => s1_expr e
   | _ => false
   end.
 
@@ -63,6 +64,7 @@ Fixpoint loads (e : expr) : list dotted :=
   match e with
   | ELoad n a => [n :: a]
   | EOp es => (fix go (l : list expr) : list dotted := match l with [] => [] | x :: r => loads x ++ go r end) es
+  | EAttr e _ => loads e
   | _ => []
   end.
 
